@@ -49,6 +49,7 @@ def run(ck, progs):
         ck.guard("C01-a TABLE dispatch", lambda: c01a(ck, prog))
         ck.guard("C01-b DECISION miss", lambda: c01b(ck, prog))
         ck.guard("C01-c REACH search", lambda: c01c(ck, prog))
+        ck.guard("C01-d ORDER child order", lambda: c01d(ck, prog))
     ck.config = None
 
 
@@ -238,3 +239,52 @@ def c01c(ck, prog):
     rr = ReachRule(ck, prog, "C01-c REACH search", roots, audit=AUDIT, stop=[r"^ohkami::response::"])
     sinks = rr.run()
     ck.floor("C01-c REACH search", "sinks examined", len(sinks), 15)
+
+
+def c01d(ck, prog):
+    """The search tries children in slice order and commits to the first match, so `static before param` and
+    `longer static before its prefix` hold only if the final children are sorted -- after every mutation of the list."""
+    R = "C01-d ORDER child order"
+    fr = [g for g in prog.fns.values() if g.name == "from" and g.self_ty == "ohkami::router::r#final::Node"]
+    if len(fr) != 1:
+        raise AnchorLost("From<base::Node> for final::Node not found")
+    f = fr[0]
+    sb = [c for c in f.calls() if c.name in ("sort_by", "sort_unstable_by", "sort_by_key", "sort", "sort_by_cached_key") and "children" in decision.describe_deep(f, c.args[0], 3)]
+    ok = len(sb) == 1
+    ck.ob(R, "children-sorted", ok, f.loc(None), "" if ok else "the final node's children are sorted %d times" % len(sb), how="base.children.sort_by(..)", nontrivial=False)
+    if not ok:
+        return
+    srt = sb[0]
+    # mutations of the child list: stores to .children, and mutating calls on it
+    muts = [(bi, "children = ..") for bi, st, agg in decision.field_stores(f, "children")]
+    for c in f.calls():
+        if c.name in ("pop", "push", "append", "insert", "remove", "swap_remove", "retain", "extend", "truncate", "drain", "reverse", "swap", "dedup", "dedup_by", "rotate_left") and c.args and re.search(r"arg1\.children\)?$", decision.describe_deep(f, c.args[0], 3)):
+            muts.append((c.bb, c.name))
+    late = [(bi, what) for bi, what in muts if bi in f.reachable_from(srt.target)]
+    ok = not late and bool(muts)
+    ck.ob(R, "sort-after-last-mutation", ok, f.loc(srt.sp),
+          "" if ok else "the children are sorted and then changed again (%s): a compressed node takes over its child's children unsorted, so a `:param` child can be tried before a static sibling, or a static prefix before the longer static" % ", ".join(w for _, w in late),
+          how="no mutation of base.children is reachable after the sort (%d mutation site(s) before it)" % len(muts))
+    # the sorted list is what gets converted
+    conv = [c for c in f.calls() if c.name == "into_iter" and re.search(r"arg1\.children$", decision.describe_deep(f, c.args[0], 3))]
+    ok = len(conv) == 1 and f.dominates(srt.bb, conv[0].bb)
+    ck.ob(R, "sorted-list-is-converted", ok, f.loc(None), "" if ok else "the converted children are not the sorted list", how="sort dominates base.children.into_iter().map(Node::from)")
+    # comparator: static before param; statics in reverse lexical order (a longer static before its own prefix)
+    clos = f.origin(srt.args[1])
+    cf = prog.fns.get(clos[-1][1][1].get("def")) if clos and clos[-1][0] == "agg" else None
+    if cf is None:
+        ck.ob(R, "comparator", False, f.loc(srt.sp), "the comparator is not a closure literal")
+        return
+    tab = {}
+    for conds, val in decision.const_table(cf, prog):
+        key = tuple(c[1] for c in conds)
+        tab[key] = (val or {}).get("desc", "")
+    ok = tab.get(("Static", "Param"), "").startswith("Less") and tab.get(("Param", "Static"), "").startswith("Greater") and tab.get(("Param", "Param"), "").startswith("Equal")
+    ck.ob(R, "comparator:static-before-param", ok, cf.loc(None), "" if ok else "the child comparator is %r: a static alternative must sort before a param alternative" % tab, how="(Static, Param) => Less, (Param, Static) => Greater, (Param, Param) => Equal")
+    ss = tab.get(("Static", "Static"), "")
+    ok = ss.startswith("reverse(cmp(") and re.search(r"arg2.*arg3|@Static", ss) is not None
+    if ok:
+        # a.cmp(b).reverse(): first operand from the first closure argument
+        c = [x for x in cf.calls() if x.name == "cmp"]
+        ok = len(c) == 1 and "arg2" in decision.describe_deep(cf, c[0].args[0], 6) and "arg3" in decision.describe_deep(cf, c[0].args[1], 6)
+    ck.ob(R, "comparator:statics-reverse-lexical", ok, cf.loc(None), "" if ok else "static siblings are ordered by `%s`, expected a.cmp(b).reverse() (so that `/users` is tried before `/user`)" % ss[:60], how="(Static(a), Static(b)) => a.cmp(b).reverse()")
